@@ -174,9 +174,9 @@ func genOps(g *GenCtx, keyed bool, n int) {
 		case k < 4:
 			g.Op("absorb %s", HexOrDash(data(g, pickLen(g))))
 		case k < 7:
-			g.Op("enc %s", HexOrDash(data(g, pickLen(g))))
+			g.Op("%s %s", Pick(g.R, []string{"enc", "enc", "enc", "enci"}), HexOrDash(data(g, pickLen(g))))
 		case k < 10:
-			g.Op("dec %s", HexOrDash(data(g, pickLen(g))))
+			g.Op("%s %s", Pick(g.R, []string{"dec", "dec", "dec", "deci"}), HexOrDash(data(g, pickLen(g))))
 		case k < 11:
 			g.Op("ratchet")
 		case k < 12:
@@ -348,6 +348,46 @@ func (p *pair) exec(f []string) string {
 			return "bad-op"
 		}
 		return p.both(func(c *cyclist.Cyclist) []byte { c.Absorb(x); return nil })
+	case len(f) == 2 && (f[0] == "enci" || f[0] == "deci"):
+		// output and input are the same buffer, on both objects ("exact overlap", as crypto/cipher allows
+		// for every stream operation; Encrypt keeps its own copy of the plaintext for this)
+		x, ok := Unhex(f[1])
+		if !ok {
+			return "bad-op"
+		}
+		enc := f[0] == "enci"
+		y := append([]byte{}, x...)
+		ra := Guard(func() string {
+			if enc {
+				p.a.Encrypt(y, y)
+			} else {
+				p.a.Decrypt(y, y)
+			}
+			return ""
+		})
+		z := append([]byte{}, y...)
+		if ra == "panic" {
+			z = append([]byte{}, x...)
+		}
+		rb := Guard(func() string {
+			if enc {
+				p.b.Decrypt(z, z)
+			} else {
+				p.b.Encrypt(z, z)
+			}
+			return ""
+		})
+		if ra == "panic" {
+			if rb != "panic" {
+				return "panic desync"
+			}
+			return "panic"
+		}
+		s := HexOrDash(y)
+		if rb == "panic" || !bytes.Equal(z, x) {
+			s += " desync"
+		}
+		return s
 	case len(f) == 2 && (f[0] == "enc" || f[0] == "dec"):
 		x, ok := Unhex(f[1])
 		if !ok {
